@@ -14,8 +14,11 @@ BOUNDARY_21 = [0, 1, 7, 8, 9, 13, 14, 15, 16, 20, 21, 22, 28, 63, 64, 1778, 1779
 BOUNDARY_22 = [61, 62, 119, 120, 121, 179, 180, 181, 240, 600, 601]
 
 
-def gen_message(rng, fd, n, addrs, m_idx, lengths=None, modes=None):
-    src = rng.randrange(n)
+def gen_message(rng, fd, eps, m_idx, lengths=None, modes=None, src=None):
+    """eps: endpoints [dict(stack, addr, kind)]; a destination-specific message goes to an endpoint on another stack"""
+    n = len(eps)
+    src = rng.randrange(n) if src is None else src
+    others = [j for j in range(n) if eps[j]['stack'] != eps[src]['stack']]
     mode = rng.choice(modes or ['p2p', 'p2p', 'bam1', 'bam2'])
     if lengths:
         L = rng.choice(lengths)
@@ -24,7 +27,7 @@ def gen_message(rng, fd, n, addrs, m_idx, lengths=None, modes=None):
     else:
         L = rng.choice([rng.randint(0, 1785), rng.choice(BOUNDARY_21), rng.randint(0, 40), min(1785, 7 * rng.randint(1, 255) + rng.choice([-1, 0, 1]))])
     data = [rng.randrange(256) for _ in range(L)]
-    # unique tag where there is room: message index + source node
+    # unique tag where there is room: message index + source endpoint
     if L >= 3:
         data[0] = m_idx & 0xFF
         data[1] = (m_idx >> 8) & 0xFF
@@ -33,11 +36,11 @@ def gen_message(rng, fd, n, addrs, m_idx, lengths=None, modes=None):
     dp = rng.randrange(2)
     prio = rng.randrange(8)
     if mode == 'p2p':
-        dst = rng.choice([j for j in range(n) if j != src])
+        dst = rng.choice(others)
         pf = rng.randrange(0, 240)
         while pf in proto:
             pf = rng.randrange(0, 240)
-        ps = addrs[dst]
+        ps = eps[dst]['addr']
     elif mode == 'bam1':
         dst = None
         pf = rng.randrange(0, 240)
@@ -61,23 +64,39 @@ def run_scenario(case, layer):
     W = World(case['seed'], layer, tuple(lat), zero)
     sim = W.sim
     viol = M.Violations()
-    addrs = rng.sample(range(0, 254), n)
+    # endpoints: per stack one CA, two CAs, or no CA at all (ECU-level listener bound to an integer address, sending through ecu.send_pgn)
+    layouts = case.get('layouts') or [rng.choice(['ca', 'ca', 'ca', 'ca2', 'int']) for _ in range(n)]
+    n_eps = sum(2 if l == 'ca2' else 1 for l in layouts)
+    addrs = rng.sample(range(0, 254), n_eps)
     if rng.random() < 0.2 and 0 not in addrs:
-        addrs[rng.randrange(n)] = 0           # address 0 is a perfectly good (and falsy) address
+        addrs[rng.randrange(n_eps)] = 0           # address 0 is a perfectly good (and falsy) address
     if rng.random() < 0.1 and 253 not in addrs:
-        addrs[rng.randrange(n)] = 253
+        addrs[rng.randrange(n_eps)] = 253
     windows = case.get('windows') or [rng.choice([1, 1, 2, 3, 5, 16, 255, rng.randint(1, 255)]) for _ in range(n)]
     bam_iv = case.get('bam_interval')
-    cas = []
+    dt_ivs = case.get('dt_intervals') or [rng.choice([None, None, None, None, 0.001, 0.005, 0.02]) for _ in range(n)]
+    eps = []
+    senders = []
     for i in range(n):
         kw = dict(max_cmdt_packets=windows[i])
         if bam_iv is not None:
             kw['minimum_tp_bam_dt_interval'] = bam_iv
+        if dt_ivs[i] is not None:
+            kw['minimum_tp_rts_cts_dt_interval'] = dt_ivs[i]
         node = W.stack('N%d' % i, **kw)
-        ca = W.ca(node, addrs[i], identity_number=i + 1)
-        W.listen_ca(ca, ('ca', i))
         W.listen_ecu(node, ('ecu', i))
-        cas.append(ca)
+        for k in range(2 if layouts[i] == 'ca2' else 1):
+            a = addrs[len(eps)]
+            e = len(eps)
+            if layouts[i] == 'int':
+                W.listen_ecu(node, ('int', e), a)
+                senders.append(lambda dp, pf, ps, prio, data, _n=node, _a=a: _n.ecu.send_pgn(dp, pf, ps, prio, _a, data))
+                eps.append(dict(stack=i, addr=a, kind='int'))
+            else:
+                ca = W.ca(node, a, identity_number=10 * i + k + 1)
+                W.listen_ca(ca, ('ca', e))
+                senders.append(ca.send_pgn)
+                eps.append(dict(stack=i, addr=a, kind='ca'))
     W.run(0.01)
     if W.harness_problems:
         W.close()
@@ -90,7 +109,7 @@ def run_scenario(case, layer):
         t = 0.02
         unit = 60 if fd else 7
         for k, (mode, L) in enumerate(case['sequential']):
-            m = gen_message(rng, fd, n, addrs, k, lengths=[L], modes=[mode])
+            m = gen_message(rng, fd, eps, k, lengths=[L], modes=[mode])
             m['t'] = t
             msgs.append(m)
             iv = (bam_iv if bam_iv is not None else (0.010 if fd else 0.050))
@@ -105,7 +124,7 @@ def run_scenario(case, layer):
         count = case.get('count') or rng.randint(1, 12)
         burst = rng.choice(['same', 'spread', 'wide'])
         for k in range(count):
-            m = gen_message(rng, fd, n, addrs, k, case.get('lengths'), case.get('modes'))
+            m = gen_message(rng, fd, eps, k, case.get('lengths'), case.get('modes'))
             if burst == 'same':
                 m['t'] = 0.02 + rng.choice([0.0, 0.0, rng.uniform(0, 0.002)])
             elif burst == 'spread':
@@ -115,16 +134,10 @@ def run_scenario(case, layer):
             msgs.append(m)
         if case.get('capacity'):
             # FD: overload one originator: > 8 p2p and > 4 bam at one instant
-            src = 0
             extra = []
+            src_eps = [j for j in range(len(eps)) if eps[j]['stack'] == 0]
             for k in range(case['capacity']):
-                m = gen_message(rng, fd, n, addrs, count + k, lengths=[rng.randint(200, 900)], modes=[rng.choice(['p2p', 'p2p', 'bam2'])])
-                m['src'] = src
-                if m['mode'] == 'p2p':
-                    m['dst'] = rng.choice([j for j in range(n) if j != src])
-                    m['ps'] = addrs[m['dst']]
-                if len(m['data']) >= 3:
-                    m['data'][2] = src
+                m = gen_message(rng, fd, eps, count + k, lengths=[rng.randint(200, 900)], modes=[rng.choice(['p2p', 'p2p', 'bam2'])], src=rng.choice(src_eps))
                 m['t'] = 0.5
                 extra.append(m)
             msgs.extend(extra)
@@ -134,7 +147,7 @@ def run_scenario(case, layer):
 
     def submit(m):
         n0 = len(W.bus.frames)
-        rec = W.call('send_pgn', cas[m['src']].send_pgn, m['dp'], m['pf'], m['ps'], m['prio'], list(m['data']))
+        rec = W.call('send_pgn', senders[m['src']], m['dp'], m['pf'], m['ps'], m['prio'], list(m['data']))
         m['acc'] = rec['ret']
         m['exc'] = rec['exc']
         m['t_sub'] = rec['t0']
@@ -145,12 +158,12 @@ def run_scenario(case, layer):
     unit = 60 if fd else 7
     iv = bam_iv if bam_iv is not None else (0.010 if fd else 0.050)
     longest = max([0.0] + [((len(m['data']) + unit - 1) // unit + 3) * (iv + 0.001) for m in msgs if m['mode'] != 'p2p'])
-    longest = max(longest, max([0.0] + [((len(m['data']) + unit - 1) // unit) * 0.012 for m in msgs if m['mode'] == 'p2p']))
+    longest = max(longest, max([0.0] + [((len(m['data']) + unit - 1) // unit) * (0.012 + (dt_ivs[eps[m['src']]['stack']] or 0)) for m in msgs if m['mode'] == 'p2p']))
     W.run(last_t + longest + 5.0)
 
     # ---- oracle: M-DELIV -------------------------------------------------------------------
     expected = collections.defaultdict(list)
-    eom_allow = collections.defaultdict(list)     # originator node -> [(pgn, responder sa, size, packets)]
+    eom_allow = []
     n_acc = n_ref = 0
     for m in msgs:
         if m['exc']:
@@ -160,30 +173,35 @@ def run_scenario(case, layer):
             n_ref += 1
             a, b = m['frames_during_call']
             # frames logged during the synchronous call that were sent by this node = side effect of a refused call
-            own = [f for f in W.bus.frames[a:b] if f.src == 'N%d' % m['src']]
+            own = [f for f in W.bus.frames[a:b] if f.src == 'N%d' % eps[m['src']]['stack']]
             if own:
                 viol.add('refused_call_emitted', 'send_pgn returned %r but put %d frame(s) on the bus: %s' % (m['acc'], len(own), own[0].brief()), layer=layer)
             continue
         n_acc += 1
         pgn = M.expected_pgn(m['dp'], m['pf'], m['ps'])
         tag = dict(mode=m['mode'], m=m['m'], len=len(m['data']))
-        for j in range(n):
-            if j == m['src']:
+        s_stack = eps[m['src']]['stack']
+        item = (pgn, addrs[m['src']], bytes(m['data']), tag)
+        for j, e in enumerate(eps):
+            if e['stack'] == s_stack:
                 continue
             if m['dst'] is None or m['dst'] == j:
-                expected[('ca', j)].append((pgn, addrs[m['src']], bytes(m['data']), tag))
-                expected[('ecu', j)].append((pgn, addrs[m['src']], bytes(m['data']), tag))
+                expected[(e['kind'], j)].append(item)
+        for t in range(n):
+            if t != s_stack and (m['dst'] is None or eps[m['dst']]['stack'] == t):
+                expected[('ecu', t)].append(item)
         if m['mode'] == 'p2p' and len(m['data']) > (60 if fd else 8):
             pk = (len(m['data']) + unit - 1) // unit
-            eom_allow[m['src']].append(dict(pgn=(m['dp'] << 16) | (m['pf'] << 8), sa=addrs[m['dst']], size=len(m['data']), pk=pk, used=set()))
+            # the end-of-message acknowledgement may be reported to the listeners bound to the originator's address (and unfiltered ones)
+            eom_allow.append(dict(pgn=(m['dp'] << 16) | (m['pf'] << 8), sa=addrs[m['dst']], size=len(m['data']), pk=pk, used=set(),
+                                  keys={(eps[m['src']]['kind'], m['src']), ('ecu', s_stack)}))
 
     eom_seen = [0]
 
     def eom_ok(key, item):
         t, prio, pgn, sa, data = item
-        kind, node = key
-        for al in eom_allow.get(node, []):
-            if key in al['used'] or al['sa'] != sa or M.norm_pgn(pgn) != M.norm_pgn(al['pgn']):
+        for al in eom_allow:
+            if key not in al['keys'] or key in al['used'] or al['sa'] != sa or M.norm_pgn(pgn) != M.norm_pgn(al['pgn']):
                 continue
             if not fd:
                 if len(data) == 8 and data[0] == 19 and (data[1] | (data[2] << 8)) == al['size'] and data[3] == al['pk']:
@@ -216,7 +234,8 @@ def run_scenario(case, layer):
         da = 255 if m['mode'] != 'p2p' else addrs[m['dst']]
         mode = 'bam' if da == 255 else 'cmdt'
         # sessions of this originator that were open on the bus at submission time
-        open_now = [s for s in sn.sessions if s.sa == sa and s.mode == mode and s.t_open <= m['t_sub'] + 1e-9
+        me = 'N%d' % eps[m['src']]['stack']
+        open_now = [s for s in sn.sessions if s.src == me and s.mode == mode and s.t_open <= m['t_sub'] + 1e-9
                     and (s.t_close is None or s.t_close >= m['t_sub'] - 0.02)]
         if fd:
             cap = 4 if mode == 'bam' else 8
@@ -224,7 +243,7 @@ def run_scenario(case, layer):
                 viol.add('refused_below_capacity', '%s send_pgn refused at t=%.4f with only %d %s session(s) of SA %02X open on the bus (capacity %d)'
                          % (layer, m['t_sub'], len(open_now), mode, sa, cap), layer=layer, mode=mode)
         else:
-            if not [s for s in open_now if s.da == da]:
+            if not [s for s in open_now if s.da == da and s.sa == sa]:
                 viol.add('refused_idle_pair', 'send_pgn refused at t=%.4f although no transfer %02X->%02X was in progress'
                          % (m['t_sub'], sa, da), layer=layer, mode=mode)
 
@@ -244,14 +263,15 @@ def run_scenario(case, layer):
     if left and not viol:
         viol.add('recorder_disagrees', '%d accepted multi-packet message(s) were delivered but cannot be reassembled from the bus log' % left, layer=layer)
 
-    sig = (layer, n, tuple(sorted(set(M.len_class(len(m['data']), fd) + ':' + m['mode'] for m in msgs if m['acc'] is True))),
+    sig = (layer, tuple(layouts), tuple(sorted(set(M.len_class(len(m['data']), fd) + ':' + m['mode'] for m in msgs if m['acc'] is True))),
            'zero' if zero else 'lat', tuple(min(w, 4) for w in windows), n_ref > 0)
     multi = sum(1 for m in msgs if m['acc'] is True and len(m['data']) > (60 if fd else 8))
     obs = dict(messages_accepted=n_acc, messages_refused=n_ref, multipacket_accepted=multi, deliveries_compared=compared,
                frames=len(W.bus.frames), eom_notifications=eom_seen[0], tables_observed=tables, sessions_reassembled=sn_ok,
                zero_latency_cases=1 if zero else 0, jobthread_max_timecalls=max([s.job_state.max_time_calls for s in W.stacks] + [0]))
-    sample = dict(case=dict(seed=case['seed'], n=n, windows=windows, zero=zero, lat=list(lat)),
-                  messages=[(m['mode'], len(m['data']), 'N%d' % m['src'], m['dst'], round(m['t'], 4), m['acc']) for m in msgs[:14]],
+    sample = dict(case=dict(seed=case['seed'], stacks=n, layouts=layouts, endpoints=[(e['stack'], e['kind'], e['addr']) for e in eps], windows=windows,
+                            dt_intervals=dt_ivs, zero=zero, lat=list(lat)),
+                  messages=[(m['mode'], len(m['data']), 'ep%d' % m['src'], m['dst'], round(m['t'], 4), m['acc']) for m in msgs[:14]],
                   frames=len(W.bus.frames), deliveries=compared, violations=len(viol))
     res = dict(violations=list(viol), inconclusive=None, sig=repr(sig), nontrivial=multi > 0 and compared > 0, obs=obs, sample=sample)
     if case.get('trace'):
@@ -261,4 +281,4 @@ def run_scenario(case, layer):
 
 
 def brief(m):
-    return '%s len=%d N%d->%s pf=%02X ps=%02X' % (m['mode'], len(m['data']), m['src'], m['dst'], m['pf'], m['ps'])
+    return '%s len=%d ep%d->%s pf=%02X ps=%02X' % (m['mode'], len(m['data']), m['src'], m['dst'], m['pf'], m['ps'])
